@@ -7,6 +7,10 @@ import (
 	"github.com/truora/minidyn/internal/vspec"
 )
 
+// vRepeat: the harnesses whose texts are concrete (token sequences, compositions, separators) ask every text
+// twice (the raw-byte harnesses do not: re-lexing a symbolic text doubles their cost).
+var vRepeat bool
+
 func vC09Env() (map[string]vspec.Val, map[string]vspec.Val) {
 	item := map[string]vspec.Val{
 		"a": {Kind: "S", S: "v"},
@@ -25,6 +29,13 @@ func vC09Condition(text string, id string) {
 	li := &Language{}
 	got, err := li.Match(MatchInput{TableName: "t", Expression: text, ExpressionType: ExpressionTypeConditional,
 		Item: vspec.ToItems(item, []string{"a", "n", "l", "m"}), Attributes: vspec.ToItems(vals, []string{":x", ":n"})})
+	if vRepeat {
+		// the verdict on a text does not depend on whether the interpreter has seen that text before: the same
+		// interpreter, asked again (with the item's attributes in the other order), answers the same
+		got2, err2 := li.Match(MatchInput{TableName: "t", Expression: text, ExpressionType: ExpressionTypeConditional,
+			Item: vspec.ToItems(item, []string{"m", "l", "n", "a"}), Attributes: vspec.ToItems(vals, []string{":n", ":x"})})
+		nd.Assert((err == nil) == (err2 == nil) && got == got2, id+"-same-verdict-when-asked-again")
+	}
 	if err != nil {
 		nd.Reach("rejected")
 		return
@@ -45,6 +56,11 @@ func vC09Update(text string, id string) {
 	li := &Language{}
 	err := li.Update(UpdateInput{TableName: "t", Expression: text,
 		Item: vspec.ToItems(item, []string{"a", "n", "l", "m"}), Attributes: vspec.ToItems(vals, []string{":x", ":n"})})
+	if vRepeat {
+		err2 := li.Update(UpdateInput{TableName: "t", Expression: text,
+			Item: vspec.ToItems(item, []string{"a", "n", "l", "m"}), Attributes: vspec.ToItems(vals, []string{":x", ":n"})})
+		nd.Assert((err == nil) == (err2 == nil), id+"-same-verdict-when-asked-again")
+	}
 	if err != nil {
 		nd.Reach("rejected")
 		return
@@ -86,6 +102,7 @@ func vJoin(words []string) string {
 
 // VerifC09Tokens: every sequence of 1..k lexemes of a vocabulary, joined by blanks, as a condition.
 func VerifC09Tokens() {
+	vRepeat = true
 	k, v := nd.Param("k", 3), nd.Param("vocab", 12)
 	n := 1 + nd.Choice("ntok", k)
 	words := make([]string, n)
@@ -98,6 +115,7 @@ func VerifC09Tokens() {
 
 // VerifC09UpdateTokens: the same for the update grammar.
 func VerifC09UpdateTokens() {
+	vRepeat = true
 	k, v := nd.Param("k", 3), nd.Param("vocab", 12)
 	n := 1 + nd.Choice("ntok", k)
 	words := make([]string, n)
@@ -111,6 +129,7 @@ func VerifC09UpdateTokens() {
 // VerifC09Separators: between the tokens of a sentence only blanks, tabs, line feeds and carriage returns are
 // white space; the separator is one symbolic byte (any value that cannot be part of a token).
 func VerifC09Separators() {
+	vRepeat = true
 	sep := nd.StringN("sep", 1)
 	c := sep[0]
 	// bytes that are (part of) tokens on their own are not separators
@@ -187,6 +206,7 @@ func vCompose(depth int, name string) string {
 
 // VerifC09Compose: every text composed from the grammar's productions up to the given depth, well-typed or not.
 func VerifC09Compose() {
+	vRepeat = true
 	vC09Condition(vCompose(nd.Param("depth", 2), "e"), "C09-compose")
 	nd.Reach("end")
 }
